@@ -476,3 +476,37 @@ Print Assumptions C18_gen_cube_CubeSet__cubes.
 
 End GenAgreeCube_C18.
 (*END GenAgreeCube_C18*)
+
+(* ---- WIRING-APPENDIX:BEGIN (generated by tools/gen_wiring_props.py; do not edit) ---- *)
+From CC Require Proofs.GenAgreeWiring_C18.
+Section Wiring_C18.
+Import Coq.Lists.List Coq.ZArith.ZArith Coq.Strings.String CC.Base.WiringExp CC.Gen.WiringSrc.
+Import ListNotations.
+Local Open Scope string_scope.
+
+Theorem C18_wiring_lazyproperty_init :
+  wsrc_lazyproperty_init = Some (WList [WCall (WGlobal "__assign__") [WAttr (WVar "self") "_fget";
+      WVar "fget"] []; WCall (WAttr (WGlobal "functools") "update_wrapper") [WVar "self"; WVar
+      "fget"] []]).
+Proof. exact Proofs.GenAgreeWiring_C18.gen_wiring_lazyproperty_init. Qed.
+Print Assumptions C18_wiring_lazyproperty_init.
+
+Theorem C18_wiring_lazyproperty_get :
+  wsrc_lazyproperty_get = Some (WCall (WGlobal "__defaults__") [WList [WIf (WCmp "is" (WVar "obj")
+      (WNone)) (WList [WCall (WGlobal "__return__") [WVar "self"] []]) (WList []); WCall (WGlobal
+      "__assign__") [WVar "value"; WCall (WAttr (WAttr (WVar "obj") "__dict__") "get") [WAttr (WVar
+      "self") "__name__"] []] []; WIf (WCmp "is" (WVar "value") (WNone)) (WList [WCall (WGlobal
+      "__assign__") [WVar "value"; WCall (WAttr (WVar "self") "_fget") [WVar "obj"] []] []; WCall
+      (WGlobal "__assign__") [WIndex (WAttr (WVar "obj") "__dict__") [WAttr (WVar "self")
+      "__name__"]; WVar "value"] []]) (WList []); WCall (WGlobal "__return__") [WVar "value"] []]]
+      [("type", WNone)]).
+Proof. exact Proofs.GenAgreeWiring_C18.gen_wiring_lazyproperty_get. Qed.
+Print Assumptions C18_wiring_lazyproperty_get.
+
+Theorem C18_wiring_lazyproperty_set :
+  wsrc_lazyproperty_set = Some (WList [WRaise "AttributeError"]).
+Proof. exact Proofs.GenAgreeWiring_C18.gen_wiring_lazyproperty_set. Qed.
+Print Assumptions C18_wiring_lazyproperty_set.
+
+End Wiring_C18.
+(* ---- WIRING-APPENDIX:END ---- *)
